@@ -81,6 +81,14 @@ pub struct History {
     pub objs: Vec<Obj>,
     pub feat_dim: usize,
     pub ops: Vec<Op>,
+    /// unit of the coordinates: 1 = pixels (objects of 20..40), 0.002 = frame-relative coordinates
+    /// (objects of 0.04..0.08), 30 = a very large frame; tracking is invariant under it
+    #[serde(default = "unit_scale")]
+    pub scale: f32,
+}
+
+fn unit_scale() -> f32 {
+    1.0
 }
 
 /// the last two scene ids differ only above bit 31
@@ -122,6 +130,11 @@ impl History {
                 UB::new(250.0 + s.jx * 2000.0, 250.0 + s.jy * 2000.0, None, 0.8, 30.0 + s.js.abs() * 100.0)
             };
             let mut b = b;
+            if self.scale != 1.0 {
+                b.xc *= self.scale;
+                b.yc *= self.scale;
+                b.height *= self.scale;
+            }
             // a detector that reports axis-aligned boxes only, now and then, for an oriented object
             if s.feat_var % 16 == 7 && s.part.0 == 1.0 {
                 b.angle = None;
@@ -325,7 +338,9 @@ pub fn history(kind: Kind, lifecycle: bool, max_ops: usize) -> impl Strategy<Val
 /// `dups = false`: no exact duplicate detections and a distinct appearance variation for every
 /// detection (tie-free by construction, for differential checks).
 pub fn history_opts(kind: Kind, lifecycle: bool, max_ops: usize, dups: bool) -> impl Strategy<Value = History> {
-    (cfg(kind), objs(), 2usize..=16, 1usize..=3, proptest::collection::vec(raw_op(lifecycle), 1..max_ops), proptest::bool::weighted(0.07)).prop_map(move |(cfg, objs, feat_dim, nscenes, raw, near_wrap)| {
+    (cfg(kind), objs(), 2usize..=16, 1usize..=3, proptest::collection::vec(raw_op(lifecycle), 1..max_ops), (proptest::bool::weighted(0.07), prop_oneof![12 => Just(1.0f32), 1 => Just(0.002f32), 1 => Just(30.0f32)])).prop_map(move |(mut cfg, objs, feat_dim, nscenes, raw, (near_wrap, scale))| {
+        // the minimal-area threshold is an absolute area: it moves with the unit
+        cfg.vis.min_area *= scale * scale;
         let mut uniq: u32 = 0;
         let mut clock = [0u16; 3];
         let mut ops = vec![];
@@ -372,6 +387,6 @@ pub fn history_opts(kind: Kind, lifecycle: bool, max_ops: usize, dups: bool) -> 
                 RawOp::Stats => Op::Stats,
             });
         }
-        History { cfg, objs, feat_dim, ops }
+        History { cfg, objs, feat_dim, ops, scale }
     })
 }
